@@ -124,8 +124,7 @@ def _report(prop, exe, ex, evs, r, path, cfg, out):
             p2 = os.path.join(ex2.dir, 'conc.ndjson'); sr.write_trace(p2, evs2)
             r2 = c.trace_validate('ConcTrace', cfg, p2, timeout=900, heap='4g')
             if not r2['accepted']:
-                b2 = evs2[r2['prefix']] if r2['prefix'] is not None and r2['prefix'] < len(evs2) else None
-                if (b2 or {}).get('e') == (bad or {}).get('e'): rep = True
+                rep = True    # schedules differ between runs: the rejected event may be another observation of the same defect
         elif ex2.rc == 3:
             rep = True
         if ex2.dir: c.rmtree(ex2.dir)
